@@ -18,6 +18,7 @@ def main():
     ap.add_argument("pid")
     ap.add_argument("--tier", default=os.environ.get("VERIF_TIER", "quick"))
     ap.add_argument("--repo", default=None)
+    ap.add_argument("--explain", default=None, help="replay file written for a VIOLATION: re-derive that obligation on the current tree and print it")
     a = ap.parse_args()
     seed = int(os.environ.get("VERIF_SEED", "0") or 0)
     pid = a.pid
@@ -33,11 +34,26 @@ def main():
         chk.ob("FACTS", "EXTRACTION-FAILED", False, "", str(e)[-1500:], nontrivial=False)
         return chk.finish()
     chk = Check(pid, prog, a.tier, seed, info)
+    if a.repo:
+        os.environ["SFS_CHECK_REPO"] = a.repo
     mod = importlib.import_module(MODULES[pid])
     try:
         getattr(mod, "check_" + pid)(chk)
     except Exception:
         chk.ob("ENGINE", "RULE-CRASH", False, "", "rule engine raised (unrecognised MIR shape at an anchor - fail closed):\n" + traceback.format_exc()[-1800:], nontrivial=False)
+    if a.explain:
+        import json
+        rep = json.load(open(a.explain))
+        oid = rep["obligation"]["id"]
+        print("replay of %s (recorded against facts %s):" % (oid, rep.get("facts_key")))
+        print("  recorded: %s\n    %s" % (rep["obligation"]["where"], rep["obligation"]["detail"]))
+        now = [o for o in chk.obs if o["id"] == oid]
+        if not now:
+            print("  now: the obligation no longer exists on the current tree (anchor or site gone)")
+            return 0
+        for o in now:
+            print("  now [%s]: %s\n    %s" % ("discharged" if o["ok"] else "FAILS", o["where"], o["detail"]))
+        return 0 if all(o["ok"] for o in now) else 1
     if a.tier == "thorough":
         try:
             import thorough
